@@ -25,6 +25,15 @@ Proof.
   rewrite <- E. rewrite S_L. reflexivity.
 Qed.
 
+Lemma parse_reg_render_stops n r : valid_reg n = true -> stops is_alnum r ->
+  parse_reg ("%" :: L n ++ r) = Some (n, r).
+Proof.
+  intros Hn Hr. unfold parse_reg. simpl hd_eqb. simpl tl. unfold valid_reg in Hn.
+  destruct (L n) as [|c t] eqn:E; [discriminate|].
+  rewrite span_app by assumption.
+  rewrite <- E. rewrite S_L. reflexivity.
+Qed.
+
 (* ---------------------------------------------------------------- identifiers *)
 Lemma parse_ident_render n r : valid_ident n = true -> brk_head r ->
   parse_ident (L n ++ r) = Some (n, r).
@@ -33,6 +42,16 @@ Proof.
   destruct (L n) as [|c t] eqn:E; [discriminate|].
   apply andb_true_iff in Hn. destruct Hn as [Hc Ht].
   rewrite <- app_comm_cons. cbv iota beta. rewrite Hc. rewrite span_app by (auto using brk_stops_idrest).
+  rewrite <- E. rewrite S_L. reflexivity.
+Qed.
+
+Lemma parse_ident_render_stops n r : valid_ident n = true -> stops is_idrest r ->
+  parse_ident (L n ++ r) = Some (n, r).
+Proof.
+  intros Hn Hr. unfold parse_ident. unfold valid_ident in Hn.
+  destruct (L n) as [|c t] eqn:E; [discriminate|].
+  apply andb_true_iff in Hn. destruct Hn as [Hc Ht].
+  rewrite <- app_comm_cons. cbv iota beta. rewrite Hc. rewrite span_app by assumption.
   rewrite <- E. rewrite S_L. reflexivity.
 Qed.
 
@@ -67,7 +86,7 @@ Lemma parse_paren_render lo b i sc r :
 Proof.
   intros Hlo Hb Hi Hsc Hsc1 Hbi.
   unfold valid_oplay in Hlo. repeat rewrite andb_true_iff in Hlo.
-  destruct Hlo as (Hwd & Hwlp & Hwb & Hwc1 & Hwi & Hwc2 & Hws).
+  destruct Hlo as (Hwd & Hwlp & Hwb & Hwc1 & Hwi & Hwc2 & Hws & _).
   unfold parse_paren, render_paren. simpl hd_eqb. simpl tl.
   (* the index part, shared by both base cases *)
   assert (Hidx : forall bb ri, i = Some ri ->
@@ -140,48 +159,501 @@ Proof.
   - apply andb_true_iff in Hw. destruct Hw as [Hc _]. rewrite Hc. reflexivity.
 Qed.
 
+
+(* ---------------------------------------------------------------- segment-override references *)
+Lemma brk_not_alpha c : is_brk c = true -> is_alpha c = false.  Proof. char_cases c. Qed.
+Lemma brk_stops_alpha r : brk_head r -> stops is_alpha r.
+Proof. destruct r; simpl; auto using brk_not_alpha. Qed.
+Lemma ws_not_alnum c : is_ws c = true -> is_alnum c = false.  Proof. char_cases c. Qed.
+Lemma ws_not_idrest c : is_ws c = true -> is_idrest c = false.  Proof. char_cases c. Qed.
+Lemma ws_not_alpha' c : is_ws c = true -> is_alpha c = false.  Proof. char_cases c. Qed.
+Lemma ws_not_digit c : is_ws c = true -> is_digit c = false.  Proof. char_cases c. Qed.
+Lemma digit_not_ws' c : is_digit c = true -> is_ws c = false.  Proof. char_cases c. Qed.
+Lemma idfirst_not_ws c : is_idfirst c = true -> is_ws c = false.  Proof. char_cases c. Qed.
+Lemma ws_not_plus c : is_ws c = true -> Ascii.eqb c "+" = false.  Proof. char_cases c. Qed.
+Lemma ws_not_minus c : is_ws c = true -> Ascii.eqb c "-" = false.  Proof. char_cases c. Qed.
+Lemma digit_not_plus c : is_digit c = true -> Ascii.eqb c "+" = false.  Proof. char_cases c. Qed.
+
+(* a blank string followed by x: x stops every class that contains no blank *)
+Lemma stops_L_cons (P : ascii -> bool) w x r : blanks w = true -> (forall c, is_ws c = true -> P c = false) -> P x = false ->
+  stops P (L w ++ x :: r).
+Proof.
+  intros Hw HP Hx. unfold blanks, allc in Hw. destruct (L w) as [|y ys]; simpl; [assumption|].
+  simpl in Hw. apply andb_true_iff in Hw. apply HP. tauto.
+Qed.
+
+Definition valid_utxt (u : chars) : bool :=
+  if hex_prefix u then (match tl (tl u) with [] => false | h => forallb is_hex h end)
+  else (match u with [] => false | _ => forallb is_digit u end).
+
+Lemma scan_dec_render d r : d <> [] -> forallb is_digit d = true -> brk_head r -> scan_dec (d ++ r) = Some (d, r).
+Proof.
+  intros Hne Hd Hr. unfold scan_dec. rewrite span_app by (auto using brk_stops_digit).
+  destruct d; [contradiction|reflexivity].
+Qed.
+
+Lemma scan_unsigned_render u r : valid_utxt u = true -> brk_head r -> scan_unsigned (u ++ r) = Some (u, r).
+Proof.
+  intros Hu Hr. unfold valid_utxt in Hu. unfold scan_unsigned.
+  destruct (hex_prefix u) eqn:Hp.
+  - destruct u as [|c1 [|c2 h]]; try discriminate. simpl in Hp. apply andb_true_iff in Hp. destruct Hp as [H1 H2].
+    apply Ascii.eqb_eq in H1. apply Ascii.eqb_eq in H2. subst c1 c2. simpl tl in Hu.
+    simpl. destruct h as [|x h]; [discriminate|].
+    rewrite <- app_comm_cons. rewrite app_comm_cons. rewrite span_app by (auto using brk_stops_hex). reflexivity.
+  - destruct u as [|x u']; [discriminate|].
+    rewrite hex_prefix_digits by assumption. apply scan_dec_render; [discriminate|assumption|assumption].
+Qed.
+
+Lemma numtxt_inv t : valid_numtxt t = true ->
+  (exists u, L t = "-" :: u /\ valid_utxt u = true) \/ (hd_eqb "-" (L t) = false /\ L t <> [] /\ valid_utxt (L t) = true).
+Proof.
+  unfold valid_numtxt. fold (valid_utxt (if hd_eqb "-" (L t) then tl (L t) else L t)).
+  destruct (hd_eqb "-" (L t)) eqn:E; intro H.
+  - left. destruct (L t) as [|c u]; [discriminate|]. simpl in E. apply Ascii.eqb_eq in E. subst c. exists u. auto.
+  - right. repeat split; [|assumption]. intro En. rewrite En in H. discriminate.
+Qed.
+
+Lemma scan_number_render t r : valid_numtxt t = true -> brk_head r -> scan_number (L t ++ r) = Some (L t, r).
+Proof.
+  intros Ht Hr. unfold scan_number.
+  destruct (numtxt_inv t Ht) as [(u & E & Hu)|(Hneg & Hne & Hu)].
+  - rewrite E. simpl hd_eqb. simpl tl. cbv iota. rewrite scan_unsigned_render by assumption. reflexivity.
+  - assert (hd_eqb "-" (L t ++ r) = false) as H.
+    { destruct (L t); [contradiction|exact Hneg]. }
+    rewrite H. rewrite scan_unsigned_render by assumption. reflexivity.
+Qed.
+
+Lemma numtxt_head t : valid_numtxt t = true -> exists c l, L t = c :: l /\ (c = "-" \/ is_digit c = true).
+Proof.
+  intro Ht. destruct (numtxt_inv t Ht) as [(u & E & Hu)|(Hneg & Hne & Hu)].
+  - exists "-", u. auto.
+  - destruct (L t) as [|c l] eqn:E; [contradiction|]. exists c, l. split; [reflexivity|]. right.
+    unfold valid_utxt in Hu. destruct (hex_prefix (c :: l)) eqn:Hp.
+    + destruct l; [discriminate|]. simpl in Hp. apply andb_true_iff in Hp. destruct Hp as [H1 _].
+      apply Ascii.eqb_eq in H1. subst c. reflexivity.
+    + simpl in Hu. apply andb_true_iff in Hu. tauto.
+Qed.
+
+(* what may follow the displacement of a segment reference: the text of the rest starts (after blanks) with a separator,
+   a comment, "(" or nothing *)
+Definition sep_or_lp (l : chars) : Prop :=
+  match l with [] => True | c :: _ => c = "," \/ c = "#" \/ c = "/" \/ c = "(" end.
+Definition follow (r : chars) : Prop := brk_head r /\ sep_or_lp (skip r).
+
+Lemma after_op_follow r : after_op r -> follow r.
+Proof.
+  intro H. split; [apply after_op_brk; assumption|].
+  apply after_op_skip in H. destruct (skip r); simpl in *; [auto|]. destruct H as [H|[H|H]]; auto.
+Qed.
+Lemma paren_follow w x : blanks w = true -> follow (L w ++ "(" :: x).
+Proof.
+  intro Hw. split; [apply brk_head_L; [assumption|reflexivity]|].
+  rewrite skipL by (assumption || reflexivity). simpl. auto.
+Qed.
+
+Lemma offtxt_inv t : valid_offtxt t = true ->
+  exists d, d <> [] /\ forallb is_digit d = true /\ (L t = "-" :: d \/ (L t = d /\ hd_eqb "-" (L t) = false)).
+Proof.
+  unfold valid_offtxt. destruct (hd_eqb "-" (L t)) eqn:E; intro H.
+  - destruct (L t) as [|c u]; [discriminate|]. simpl in E. apply Ascii.eqb_eq in E. subst c. simpl tl in H.
+    exists u. destruct u; [discriminate|]. repeat split; [discriminate|assumption|auto].
+  - exists (L t). destruct (L t); [discriminate|]. repeat split; [discriminate|assumption|auto].
+Qed.
+
+Lemma parse_sident_render lo n rel off r :
+  valid_oplay lo = true -> valid_sdisp (SId n rel off) = true -> follow r ->
+  parse_sident (render_sdisp lo (SId n rel off) ++ r) = Some (SId n rel off, r).
+Proof.
+  intros Hlo Hd [Hbrk Hfol].
+  unfold valid_oplay in Hlo. repeat rewrite andb_true_iff in Hlo.
+  destruct Hlo as (_ & _ & _ & _ & _ & _ & _ & _ & _ & Hat & Hp1 & Hp2 & _).
+  simpl in Hd. apply andb_true_iff in Hd. destruct Hd as [Hn Hro].
+  assert (Hf : hd_eqb "@" (skip r) = false /\ hd_eqb "+" (skip r) = false /\ hd_eqb "-" (skip r) = false
+               /\ stops is_digit (skip r)).
+  { destruct (skip r) as [|c l]; simpl in *; [auto|].
+    destruct Hfol as [H|[H|[H|H]]]; subst c; auto. }
+  destruct Hf as (Hf_at & Hf_pl & Hf_mi & Hf_dg).
+  unfold parse_sident, render_sdisp.
+  destruct rel as [a|].
+  - (* relocation *)
+    norm. rewrite parse_ident_render_stops; [|assumption|apply stops_L_cons; auto using ws_not_idrest].
+    rewrite skipL by (assumption || reflexivity). simpl hd_eqb. simpl tl. cbv iota.
+    assert (Ha : valid_reloc a = true) by (destruct off; [apply andb_true_iff in Hro; tauto|assumption]).
+    unfold valid_reloc in Ha. destruct (L a) as [|a0 al] eqn:Ea; [discriminate|]. rewrite <- Ea in Ha |- *.
+    destruct off as [t|].
+    + apply andb_true_iff in Hro. destruct Hro as [_ Ht].
+      destruct (offtxt_inv t Ht) as (d & Hdne & Hdd & [Et|[Et Hnm]]).
+      * (* negative: "-" digits *)
+        unfold render_off. rewrite Et. simpl hd_eqb. cbv iota. norm.
+        rewrite span_app; [|assumption|apply stops_L_cons; auto using ws_not_alpha'].
+        rewrite Ea. rewrite <- Ea. rewrite skipL by (assumption || reflexivity).
+        simpl hd_eqb. cbv iota. simpl hd_eqb. simpl tl. cbv iota.
+        rewrite span_app by (auto using brk_stops_digit).
+        destruct d as [|d0 dl]; [contradiction|].
+        rewrite S_L. rewrite <- Et. rewrite S_L. reflexivity.
+      * (* "+" digits *)
+        unfold render_off. rewrite Hnm. rewrite Et. norm.
+        rewrite span_app; [|assumption|apply stops_L_cons; auto using ws_not_alpha'].
+        rewrite Ea. rewrite <- Ea. rewrite skipL by (assumption || reflexivity).
+        simpl hd_eqb. cbv iota. simpl tl.
+        destruct d as [|d0 dl]; [contradiction|].
+        simpl in Hdd. apply andb_true_iff in Hdd. destruct Hdd as [Hd0 Hdl].
+        rewrite skipL; [|assumption|simpl; auto using digit_not_ws'].
+        simpl hd_eqb. rewrite (digit_not_minus d0) by assumption. cbv iota.
+        rewrite app_comm_cons. rewrite span_app; [|simpl; rewrite Hd0; assumption|auto using brk_stops_digit].
+        rewrite S_L. rewrite <- Et. rewrite S_L. reflexivity.
+    + (* no offset *)
+      norm. rewrite span_app; [|assumption|auto using brk_stops_alpha].
+      change ([] ++ r) with r. rewrite Ea. cbv iota. rewrite <- Ea. rewrite Hf_pl. cbv iota. rewrite Hf_mi. cbv iota.
+      rewrite span_stop by assumption. simpl orb. cbv iota. rewrite S_L. reflexivity.
+  - destruct off; [discriminate|].
+    rewrite app_nil_r. rewrite parse_ident_render by assumption. rewrite Hf_at. reflexivity.
+Qed.
+
+Lemma seg_tail_paren lo sg d b i sc r :
+  valid_oplay lo = true -> opt_reg b = true -> opt_reg i = true -> valid_scale sc = true ->
+  (i = None -> sc = 1%Z) -> (b = None -> i = None -> False) ->
+  forall w, forallb is_ws w = true ->
+  seg_tail sg d (w ++ render_paren lo b i sc ++ r) = Some (RGood (OSeg sg d b i sc), r).
+Proof.
+  intros Hlo Hb Hi Hsc H1 H2 w Hw. unfold seg_tail.
+  rewrite skip_app by (assumption || reflexivity).
+  change (hd_eqb "(" (render_paren lo b i sc ++ r)) with true. cbv iota.
+  rewrite parse_paren_render by assumption. reflexivity.
+Qed.
+
+Lemma seg_tail_bare sg d r : d <> SNone -> after_op r ->
+  seg_tail sg d r = Some (RGood (OSeg sg d None None 1%Z), r).
+Proof.
+  intros Hd Hr. unfold seg_tail. rewrite after_op_not_lp by assumption.
+  destruct d; [contradiction|reflexivity|reflexivity].
+Qed.
+
+Lemma after_op_not_colon r : after_op r -> hd_eqb ":" (skip r) = false.
+Proof.
+  intro H. apply after_op_skip in H. destruct (skip r); simpl in *; [reflexivity|].
+  destruct H as [H|[H|H]]; subst; reflexivity.
+Qed.
+
+(* the text after "%seg" : blanks, ":", blanks, then x (which starts with a non-blank) *)
+Lemma parse_operand_seg sg w1 w2 x : valid_reg sg = true -> blanks w1 = true -> blanks w2 = true -> stops is_ws x ->
+  parse_operand ("%" :: L sg ++ L w1 ++ ":" :: L w2 ++ x) = parse_seg sg x.
+Proof.
+  intros Hsg H1 H2 Hx. unfold parse_operand. simpl Ascii.eqb. cbv iota.
+  rewrite parse_reg_render_stops; [|assumption|apply stops_L_cons; auto using ws_not_alnum].
+  rewrite skipL by (assumption || reflexivity). simpl hd_eqb. cbv iota. simpl tl.
+  rewrite skipL by assumption. reflexivity.
+Qed.
+
+(* ---------------------------------------------------------------- every spelling of an integer is a displacement text *)
+Lemma render_N_utxt lo n : valid_utxt (render_N lo n) = true.
+Proof.
+  unfold valid_utxt, render_N. destruct (lo_hex lo).
+  - simpl. destruct (chars_of_hex (lo_upper lo) (N.to_hex_uint n)) as [|c t] eqn:E.
+    + exfalso. apply (N_to_hex_uint_nonnil n). eapply chars_of_hex_nil. eassumption.
+    + pose proof (hex_chars_hex (lo_upper lo) (N.to_hex_uint n)) as Hh. rewrite E in Hh. exact Hh.
+  - pose proof (hex_prefix_digits (chars_of_dec (N.to_uint n)) [] (dec_chars_digits _) I) as H.
+    rewrite app_nil_r in H. rewrite H.
+    destruct (dec_render_cons n) as (c & t & E & _). pose proof (dec_chars_digits (N.to_uint n)) as Hd.
+    rewrite E in Hd |- *. exact Hd.
+Qed.
+
+Lemma render_Z_numtxt lo z : valid_numtxt (S_ (render_Z lo z)) = true.
+Proof.
+  unfold valid_numtxt. rewrite L_S. unfold render_Z. destruct (z <? 0)%Z.
+  - simpl. apply render_N_utxt.
+  - simpl app. destruct (render_N_head lo (Z.abs_N z)) as (c & t & E & Hc).
+    assert (hd_eqb "-" (render_N lo (Z.abs_N z)) = false) as H by (rewrite E; simpl; auto using digit_not_minus).
+    rewrite H. apply render_N_utxt.
+Qed.
+
+Lemma render_Z_value lo z : parse_number (render_Z lo z) = Some (NumOk z, []).
+Proof. rewrite <- (app_nil_r (render_Z lo z)). apply parse_number_render. exact I. Qed.
+
+(* ---------------------------------------------------------------- opmask *)
+Lemma alnum_not_ws c : is_alnum c = true -> is_ws c = false.  Proof. char_cases c. Qed.
+Lemma alnum_not_pct c : is_alnum c = true -> Ascii.eqb c "%" = false.  Proof. char_cases c. Qed.
+Lemma digit_not_star c : is_digit c = true -> Ascii.eqb c "*" = false.  Proof. char_cases c. Qed.
+Lemma idfirst_not_star c : is_idfirst c = true -> Ascii.eqb c "*" = false.  Proof. char_cases c. Qed.
+
+Lemma after_op_not_lbrace r : after_op r -> hd_eqb "{" (skip r) = false.
+Proof.
+  intro H. apply after_op_skip in H. destruct (skip r); simpl in *; [reflexivity|].
+  destruct H as [H|[H|H]]; subst; reflexivity.
+Qed.
+
+Lemma skip_mask_none az r : hd_eqb "{" (skip r) = false -> skip_mask az r = Some r.
+Proof. unfold skip_mask. intro H. rewrite H. reflexivity. Qed.
+
+Lemma klay_inv lo : valid_oplay lo = true -> valid_klay (lo_k lo) = true.
+Proof.
+  unfold valid_oplay. intro H. repeat rewrite andb_true_iff in H.
+  destruct H as (_ & _ & _ & _ & _ & _ & _ & _ & _ & _ & _ & _ & H). exact H.
+Qed.
+
+Lemma skip_mask_render lo k z az r : valid_oplay lo = true -> valid_reg k = true ->
+  (z = true -> az = true) -> (az = true -> z = false -> hd_eqb "{" (skip r) = false) ->
+  skip_mask az (render_mask lo k z ++ r) = Some r.
+Proof.
+  intros Hlo Hk Hz Hnz. apply klay_inv in Hlo. unfold valid_klay in Hlo. repeat rewrite andb_true_iff in Hlo.
+  destruct Hlo as (_ & H1 & H2 & H3 & H4 & H5 & H6 & H7).
+  unfold valid_reg in Hk. destruct (L k) as [|c t] eqn:Ek; [discriminate|].
+  assert (Hc : is_alnum c = true) by (simpl in Hk; apply andb_true_iff in Hk; tauto).
+  rewrite <- Ek in Hk.
+  unfold skip_mask, render_mask. cbv zeta. norm.
+  rewrite skipL by (assumption || reflexivity). simpl hd_eqb. cbv iota. simpl tl.
+  assert (Hpre : (let r2 := skip (L (wk2 (lo_k lo)) ++ (if lo_kpct (lo_k lo) then "%" :: L (wk3 (lo_k lo)) else []) ++
+                                 L k ++ L (wk4 (lo_k lo)) ++ "}" :: (if z then L (wk5 (lo_k lo)) ++ "{" :: L (wk6 (lo_k lo)) ++ "z" :: L (wk7 (lo_k lo)) ++ ["}"] else []) ++ r) in
+                  if hd_eqb "%" r2 then skip (tl r2) else r2)
+                 = L k ++ L (wk4 (lo_k lo)) ++ "}" :: (if z then L (wk5 (lo_k lo)) ++ "{" :: L (wk6 (lo_k lo)) ++ "z" :: L (wk7 (lo_k lo)) ++ ["}"] else []) ++ r).
+  { cbv zeta. destruct (lo_kpct (lo_k lo)).
+    - norm. rewrite skipL by (assumption || reflexivity). simpl hd_eqb. cbv iota. simpl tl.
+      apply skipL; [assumption|]. rewrite Ek. simpl. auto using alnum_not_ws.
+    - change ([] ++ ?x) with x. rewrite skipL; [|assumption|rewrite Ek; simpl; auto using alnum_not_ws].
+      rewrite Ek. simpl hd_eqb. rewrite alnum_not_pct by assumption. reflexivity. }
+  cbv zeta in Hpre. norm in Hpre. rewrite Hpre. clear Hpre.
+  rewrite span_app; [|assumption|apply stops_L_cons; auto using ws_not_alnum].
+  rewrite Ek. cbv iota.
+  rewrite skipL by (assumption || reflexivity). simpl hd_eqb. cbv iota. simpl tl.
+  destruct z.
+  - rewrite (Hz eq_refl). norm. rewrite skipL by (assumption || reflexivity). simpl hd_eqb. cbv iota. simpl tl.
+    rewrite skipL by (assumption || reflexivity). simpl hd_eqb. cbv iota. simpl tl.
+    rewrite skipL by (assumption || reflexivity). reflexivity.
+  - change ([] ++ r) with r. destruct az; [|reflexivity]. rewrite (Hnz eq_refl eq_refl). reflexivity.
+Qed.
+
+(* what follows the ")" of a memory reference: nothing of the operand, or an opmask *)
+Definition mask_tail (lo : oplay) (tail r : chars) : Prop :=
+  (tail = r /\ hd_eqb "{" (skip r) = false) \/ (exists k, valid_reg k = true /\ tail = render_mask lo k false ++ r).
+
+Lemma mask_tail_skip lo tail r : valid_oplay lo = true -> mask_tail lo tail r -> skip_mask false tail = Some r.
+Proof.
+  intros Hlo [[-> H]|(k & Hk & ->)]; [apply skip_mask_none; assumption|].
+  apply skip_mask_render; try assumption; discriminate.
+Qed.
+
 (* ---------------------------------------------------------------- operands *)
 Definition rop_of (first : bool) (lo : oplay) (o : operand) : rop :=
   match o with
   | OId n => if orb (lo_dollar lo) (negb first) then RGood o else RBare n
-  | _ => RGood o
+  | OIdR n _ _ => if orb (lo_dollar lo) (negb first) then RGood (OId n) else RBare n
+  | ONumLbl d _ => RBare d
+  | _ => RGood (code_view o)
   end.
 
-Lemma parse_operand_num c l : (c = "-" \/ is_digit c = true) ->
-  parse_operand (c :: l) =
-  match parse_number (c :: l) with
-  | Some (NumOk z, r) =>
-      with_disp (Some (DInt z)) (if Ascii.eqb c "-" then None else Some (RGood (OMem (DInt z) None None 1%Z))) r
-  | Some (NumBad, r) => with_disp None None r
-  | None => None
-  end.
+Lemma numlbl_check_render lo z r dg r1 : brk_head r -> span is_digit (render_Z lo z ++ r) = (dg, r1) ->
+  andb (negb (match dg with [] => true | _ => false end))
+       (match r1 with x :: _ => one_of "bBfF" x | [] => false end) = false.
 Proof.
-  intros [H|H]; [subst; reflexivity|].
-  unfold parse_operand. rewrite digit_not_pct, digit_not_dollar, digit_not_lp, H, orb_true_r by assumption. reflexivity.
+  intros Hr. unfold render_Z. destruct (z <? 0)%Z.
+  - simpl. intro E. inversion E. reflexivity.
+  - simpl app. unfold render_N. destruct (lo_hex lo).
+    + simpl. intro E. inversion E. reflexivity.
+    + rewrite span_app by (auto using dec_chars_digits, brk_stops_digit). intro E. inversion E. subst.
+      destruct r1 as [|x r1]; [apply andb_false_r|]. simpl in Hr. rewrite brk_not_bf by assumption. apply andb_false_r.
+Qed.
+
+Lemma parse_operand_num lo z r : brk_head r ->
+  parse_operand (render_Z lo z ++ r) =
+  with_disp (Some (DInt z)) (if (z <? 0)%Z then None else Some (RGood (OMem (DInt z) None None 1%Z))) r.
+Proof.
+  intro Hr. destruct (render_Z_head lo z) as (c & t & Ez & Hc).
+  destruct (span is_digit (render_Z lo z ++ r)) as [dg r1] eqn:Esp.
+  pose proof (numlbl_check_render lo z r dg r1 Hr Esp) as Hchk.
+  pose proof (parse_number_render lo z r Hr) as Hnum.
+  rewrite Ez in *. norm in Esp. norm in Hnum. norm.
+  unfold parse_operand. rewrite Esp, Hchk, Hnum.
+  destruct Hc as [[-> Hneg]|[Hc Hpos]].
+  - simpl. apply Z.ltb_lt in Hneg. rewrite Hneg. reflexivity.
+  - rewrite digit_not_pct, digit_not_dollar, digit_not_lp, digit_not_star, Hc, orb_true_r by assumption.
+    rewrite digit_not_minus by assumption. apply Z.ltb_ge in Hpos. rewrite Hpos. reflexivity.
 Qed.
 
 Lemma parse_operand_id c l : is_idfirst c = true ->
   parse_operand (c :: l) =
-  match parse_ident (c :: l) with
-  | Some (n, r) => with_disp (Some (DId n)) (Some (RBare n)) r
+  match parse_sident (c :: l) with
+  | Some (sd, r) => with_disp (Some (DId (name_of_sid sd))) (Some (RBare (name_of_sid sd))) r
   | None => None
   end.
 Proof.
   intro H. unfold parse_operand.
-  rewrite idfirst_not_pct, idfirst_not_dollar, idfirst_not_lp, idfirst_not_minus, idfirst_not_digit, H by assumption.
+  rewrite idfirst_not_pct, idfirst_not_dollar, idfirst_not_lp, idfirst_not_star, idfirst_not_minus, idfirst_not_digit, H by assumption.
   reflexivity.
 Qed.
 
-Lemma with_disp_paren lo d bare b i sc r :
+Lemma with_disp_paren lo d bare b i sc tail r :
   valid_oplay lo = true -> opt_reg b = true -> opt_reg i = true -> valid_scale sc = true ->
-  (i = None -> sc = 1%Z) -> (b = None -> i = None -> False) ->
+  (i = None -> sc = 1%Z) -> (b = None -> i = None -> False) -> mask_tail lo tail r ->
   forall w, forallb is_ws w = true ->
-  with_disp (Some d) bare (w ++ render_paren lo b i sc ++ r) = Some (RGood (OMem d b i sc), r).
+  with_disp (Some d) bare (w ++ render_paren lo b i sc ++ tail) = Some (RGood (OMem d b i sc), r).
 Proof.
-  intros Hlo Hb Hi Hsc H1 H2 w Hw. unfold with_disp.
+  intros Hlo Hb Hi Hsc H1 H2 Ht w Hw. unfold with_disp.
   rewrite skip_app by (assumption || reflexivity).
-  change (hd_eqb "(" (render_paren lo b i sc ++ r)) with true. cbv iota.
-  rewrite parse_paren_render by assumption. reflexivity.
+  change (hd_eqb "(" (render_paren lo b i sc ++ tail)) with true. cbv iota.
+  rewrite parse_paren_render by assumption. rewrite (mask_tail_skip lo tail r Hlo Ht). reflexivity.
+Qed.
+
+Lemma with_disp_bare d x r : after_op r -> with_disp d (Some x) r = Some (x, r).
+Proof. intro H. unfold with_disp. rewrite after_op_not_lp by assumption. reflexivity. Qed.
+
+(* the displacement in front of the parenthesis *)
+Definition render_dpart (lo : oplay) (d : disp) : chars :=
+  match d with
+  | DNone => []
+  | DInt z => render_Z lo z ++ L (w_d lo)
+  | DId n => L n ++ L (w_d lo)
+  | DIdR n rel off => render_sdisp lo (SId n (Some rel) off) ++ L (w_d lo)
+  end.
+
+Lemma sident_plain lo n : render_sdisp lo (SId n None None) = L n.
+Proof. simpl. apply app_nil_r. Qed.
+
+Lemma parse_sident_plain lo n r : valid_oplay lo = true -> valid_ident n = true -> follow r ->
+  parse_sident (L n ++ r) = Some (SId n None None, r).
+Proof.
+  intros Hlo Hn Hr. rewrite <- (sident_plain lo n). apply parse_sident_render; try assumption.
+  simpl. rewrite Hn. reflexivity.
+Qed.
+
+Lemma sident_head lo n rel off : valid_ident n = true ->
+  exists c x, render_sdisp lo (SId n rel off) = c :: x /\ is_idfirst c = true.
+Proof.
+  intro Hn. destruct (ident_head n Hn) as (c & t & En & Hc). simpl render_sdisp. rewrite En.
+  eexists; eexists; split; [reflexivity|assumption].
+Qed.
+
+Lemma scan_render_Z lo z r : brk_head r -> scan_number (render_Z lo z ++ r) = Some (render_Z lo z, r).
+Proof.
+  intro Hr. pose proof (scan_number_render (S_ (render_Z lo z)) r (render_Z_numtxt lo z) Hr) as H.
+  rewrite L_S in H. exact H.
+Qed.
+
+Section MemCore.
+  Variables (lo : oplay) (d : disp) (b i : option string) (sc : Z) (tail r : chars).
+  Hypothesis Hlo : valid_oplay lo = true.
+  Hypothesis Hm : valid_paren_mem d b i sc = true.
+  Hypothesis Ht : mask_tail lo tail r.
+
+  Lemma paren_mem_inv : opt_reg b = true /\ opt_reg i = true /\ valid_scale sc = true /\ valid_disp d = true
+                        /\ (i = None -> sc = 1%Z) /\ (b = None -> i = None -> False) /\ blanks (w_d lo) = true.
+  Proof.
+    unfold valid_paren_mem in Hm. repeat rewrite andb_true_iff in Hm. destruct Hm as (Hb & Hi & Hsc & Hd & Hsc1 & Hbi).
+    repeat split; try assumption.
+    - intros ->. apply Z.eqb_eq. assumption.
+    - intros -> ->. discriminate.
+    - unfold valid_oplay in Hlo. repeat rewrite andb_true_iff in Hlo. tauto.
+  Qed.
+
+  Let X := render_dpart lo d ++ render_paren lo b i sc ++ tail.
+
+  Lemma with_disp_X d' bare w : forallb is_ws w = true ->
+    with_disp (Some d') bare (w ++ render_paren lo b i sc ++ tail) = Some (RGood (OMem d' b i sc), r).
+  Proof.
+    destruct paren_mem_inv as (Hb & Hi & Hsc & Hd & Hsc1 & Hbi & Hwd). intro Hw.
+    apply with_disp_paren; assumption.
+  Qed.
+
+  Lemma paren_tail_follow : follow (L (w_d lo) ++ render_paren lo b i sc ++ tail).
+  Proof. destruct paren_mem_inv as (_ & _ & _ & _ & _ & _ & Hwd). apply paren_follow. assumption. Qed.
+  Lemma paren_tail_brk : brk_head (L (w_d lo) ++ render_paren lo b i sc ++ tail).
+  Proof. apply paren_tail_follow. Qed.
+
+  Lemma parse_operand_mem : parse_operand X = Some (RGood (OMem (disp_view d) b i sc), r).
+  Proof.
+    destruct paren_mem_inv as (Hb & Hi & Hsc & Hd & Hsc1 & Hbi & Hwd). unfold X.
+    pose proof with_disp_X as HX. pose proof paren_tail_follow as HF. pose proof paren_tail_brk as HB.
+    destruct d as [|z|n|n rel off]; unfold render_dpart, disp_view.
+    - change (parse_operand ([] ++ render_paren lo b i sc ++ tail))
+        with (with_disp (Some DNone) None ([] ++ render_paren lo b i sc ++ tail)).
+      apply HX. reflexivity.
+    - norm. rewrite parse_operand_num by apply HB. apply HX. assumption.
+    - simpl in Hd. destruct (ident_head n Hd) as (c & t & En & Hc).
+      norm. rewrite En. norm. rewrite parse_operand_id by assumption. rewrite app_comm_cons, <- En.
+      rewrite (parse_sident_plain lo) by (assumption || apply HF).
+      apply HX. assumption.
+    - simpl in Hd. pose proof Hd as Hd'. apply andb_true_iff in Hd'. destruct Hd' as [Hn _].
+      destruct (sident_head lo n (Some rel) off Hn) as (c & x & Ex & Hc).
+      norm. rewrite Ex. norm. rewrite parse_operand_id by assumption. rewrite app_comm_cons, <- Ex.
+      rewrite parse_sident_render by (assumption || apply HF).
+      apply HX. assumption.
+  Qed.
+
+  Lemma parse_star_mem : parse_star X = Some (RGood (OMem (disp_view d) b i sc), r).
+  Proof.
+    destruct paren_mem_inv as (Hb & Hi & Hsc & Hd & Hsc1 & Hbi & Hwd). unfold X.
+    pose proof with_disp_X as HX. pose proof paren_tail_follow as HF. pose proof paren_tail_brk as HB.
+    destruct d as [|z|n|n rel off]; unfold render_dpart, disp_view.
+    - change (parse_star ([] ++ render_paren lo b i sc ++ tail))
+        with (with_disp (Some DNone) None ([] ++ render_paren lo b i sc ++ tail)).
+      apply HX. reflexivity.
+    - destruct (render_Z_head lo z) as (c & t & Ez & Hc).
+      pose proof (scan_render_Z lo z _ HB) as Hscan.
+      pose proof (parse_number_render lo z _ HB) as Hnum.
+      norm. rewrite Ez in *. norm. norm in Hscan. norm in Hnum.
+      unfold parse_star. rewrite Hscan, Hnum.
+      assert (Hdisp : Ascii.eqb c "%" = false /\ Ascii.eqb c "(" = false /\ orb (Ascii.eqb c "-") (is_digit c) = true).
+      { destruct Hc as [[-> _]|[Hc _]]; [repeat split; reflexivity|].
+        rewrite digit_not_pct, digit_not_lp, Hc, orb_true_r by assumption. auto. }
+      destruct Hdisp as (-> & -> & ->). apply HX. assumption.
+    - simpl in Hd. destruct (ident_head n Hd) as (c & t & En & Hc).
+      pose proof (parse_sident_plain lo n _ Hlo Hd HF) as Hsid.
+      norm. rewrite En in *. norm. norm in Hsid. unfold parse_star. rewrite Hsid.
+      rewrite idfirst_not_pct, idfirst_not_lp, idfirst_not_minus, idfirst_not_digit, Hc by assumption.
+      simpl orb. cbv iota. apply HX. assumption.
+    - simpl in Hd. pose proof Hd as Hd'. apply andb_true_iff in Hd'. destruct Hd' as [Hn _].
+      destruct (sident_head lo n (Some rel) off Hn) as (c & x & Ex & Hc).
+      pose proof (parse_sident_render lo n (Some rel) off _ Hlo Hd HF) as Hsid.
+      norm. rewrite Ex in *. norm. norm in Hsid. unfold parse_star. rewrite Hsid.
+      rewrite idfirst_not_pct, idfirst_not_lp, idfirst_not_minus, idfirst_not_digit, Hc by assumption.
+      simpl orb. cbv iota. apply HX. assumption.
+  Qed.
+
+  (* with or without the "*" the grammar skips *)
+  Lemma parse_operand_render_mem :
+    parse_operand (render_mem lo d b i sc ++ tail) = Some (RGood (OMem (disp_view d) b i sc), r).
+  Proof.
+    assert (Hst : blanks (w_st (lo_k lo)) = true).
+    { pose proof (klay_inv lo Hlo) as H. unfold valid_klay in H. repeat rewrite andb_true_iff in H. tauto. }
+    assert (HX : exists c x, X = c :: x /\ is_ws c = false).
+    { unfold X. destruct paren_mem_inv as (_ & _ & _ & Hd & _).
+      destruct d as [|z|n|n rel off]; unfold render_dpart.
+      - eexists; eexists; split; reflexivity.
+      - destruct (render_Z_head lo z) as (c & t & Ez & Hc). rewrite Ez. norm. eexists; eexists; split; [reflexivity|].
+        destruct Hc as [[-> _]|[Hc _]]; [reflexivity|auto using digit_not_ws'].
+      - simpl in Hd. destruct (ident_head n Hd) as (c & t & En & Hc). rewrite En. norm.
+        eexists; eexists; split; [reflexivity|auto using idfirst_not_ws].
+      - simpl in Hd. apply andb_true_iff in Hd. destruct Hd as [Hn _].
+        destruct (sident_head lo n (Some rel) off Hn) as (c & x & Ex & Hc). rewrite Ex. norm.
+        eexists; eexists; split; [reflexivity|auto using idfirst_not_ws]. }
+    replace (render_mem lo d b i sc ++ tail) with ((if lo_star (lo_k lo) then render_star lo else []) ++ X)
+      by (unfold X, render_mem, render_dpart; destruct d; norm; reflexivity).
+    destruct (lo_star (lo_k lo)).
+    - unfold render_star. norm. unfold parse_operand. simpl Ascii.eqb. cbv iota.
+      destruct HX as (c & x & EX & Hc). rewrite skipL; [|assumption|rewrite EX; exact Hc].
+      apply parse_star_mem.
+    - apply parse_operand_mem.
+  Qed.
+End MemCore.
+
+Lemma parse_number_numtxt t r : valid_numtxt t = true -> brk_head r -> exists nr r', parse_number (L t ++ r) = Some (nr, r').
+Proof.
+  intros Ht Hr. unfold parse_number.
+  assert (Hu : forall u, valid_utxt u = true -> exists on r', parse_unsigned (u ++ r) = Some (on, r')).
+  { intros u Hu. unfold valid_utxt in Hu. unfold parse_unsigned. destruct (hex_prefix u) eqn:Hp.
+    - destruct u as [|c1 [|c2 h]]; try discriminate. simpl in Hp. apply andb_true_iff in Hp. destruct Hp as [H1 H2].
+      apply Ascii.eqb_eq in H1. apply Ascii.eqb_eq in H2. subst c1 c2. simpl tl in Hu. simpl.
+      destruct h as [|x h]; [discriminate|]. rewrite <- app_comm_cons. rewrite app_comm_cons.
+      rewrite span_app by (auto using brk_stops_hex).
+      destruct (hex_of_chars_some (x :: h) Hu) as (u' & ->). eexists; eexists; reflexivity.
+    - destruct u as [|x u']; [discriminate|]. rewrite hex_prefix_digits by assumption.
+      unfold parse_dec. rewrite span_app by (auto using brk_stops_digit).
+      destruct (dec_of_chars_some (x :: u') Hu) as (u'' & ->).
+      destruct (orb _ _); eexists; eexists; reflexivity. }
+  destruct (numtxt_inv t Ht) as [(u & E & Hv)|(Hneg & Hne & Hv)].
+  - rewrite E. simpl hd_eqb. simpl tl. cbv iota. destruct (Hu u Hv) as (on & r' & ->).
+    destruct on; eexists; eexists; reflexivity.
+  - assert (hd_eqb "-" (L t ++ r) = false) as H by (destruct (L t); [contradiction|exact Hneg]).
+    rewrite H. destruct (Hu (L t) Hv) as (on & r' & ->). destruct on; eexists; eexists; reflexivity.
 Qed.
 
 Lemma parse_operand_render first lo o r :
@@ -189,10 +661,14 @@ Lemma parse_operand_render first lo o r :
   parse_operand (render_op first lo o ++ r) = Some (rop_of first lo o, r).
 Proof.
   intros Ho Hlo Hr. pose proof (after_op_brk r Hr) as Hbrk.
-  destruct o as [n|z|n|d b i sc]; simpl in Ho.
+  assert (Hst : blanks (w_st (lo_k lo)) = true).
+  { pose proof (klay_inv lo Hlo) as H. unfold valid_klay in H. repeat rewrite andb_true_iff in H. tauto. }
+  assert (Hmt : mask_tail lo r r) by (left; split; [reflexivity|apply after_op_not_lbrace; assumption]).
+  destruct o as [n|z|n|d b i sc|sg d b i sc|x|n k zz|d b i sc k|n rel off|dg x]; simpl in Ho.
   - (* register *)
     simpl render_op. norm. unfold parse_operand. simpl Ascii.eqb. cbv iota.
-    rewrite parse_reg_render by assumption. reflexivity.
+    rewrite parse_reg_render by assumption. rewrite after_op_not_colon by assumption.
+    rewrite skip_mask_none by (apply after_op_not_lbrace; assumption). reflexivity.
   - (* immediate *)
     simpl render_op. norm. unfold parse_operand. simpl Ascii.eqb. cbv iota.
     rewrite parse_number_render by assumption. reflexivity.
@@ -201,71 +677,176 @@ Proof.
     unfold render_op, rop_of. destruct (orb (lo_dollar lo) (negb first)).
     + norm. unfold parse_operand. simpl Ascii.eqb. cbv iota.
       rewrite En. norm. rewrite parse_number_ident by assumption. rewrite app_comm_cons, <- En.
-      rewrite parse_ident_render by assumption. reflexivity.
+      rewrite (parse_sident_plain lo) by (assumption || (apply after_op_follow; assumption)). reflexivity.
     + rewrite En. norm. rewrite parse_operand_id by assumption. rewrite app_comm_cons, <- En.
-      rewrite parse_ident_render by assumption. unfold with_disp.
-      rewrite after_op_not_lp by assumption. reflexivity.
+      rewrite (parse_sident_plain lo) by (assumption || (apply after_op_follow; assumption)).
+      apply with_disp_bare. assumption.
   - (* memory *)
-    repeat rewrite andb_true_iff in Ho. destruct Ho as (Hb & Hi & Hsc & Hd & Hsc1 & Habs).
+    unfold rop_of. simpl code_view.
+    assert (Hparen : valid_paren_mem d b i sc = true ->
+              parse_operand (render_mem lo d b i sc ++ r) = Some (RGood (OMem (disp_view d) b i sc), r)).
+    { intro Hm. apply parse_operand_render_mem; assumption. }
+    destruct d as [|z|n|n rel off]; try (destruct b, i; apply Hparen; exact Ho).
+    destruct b as [rb|], i as [ri|]; try (apply Hparen; exact Ho).
+    (* absolute address *)
+    apply andb_true_iff in Ho. destruct Ho as [Hz Hsc]. apply Z.leb_le in Hz. apply Z.eqb_eq in Hsc. subst sc.
+    simpl render_op. rewrite parse_operand_num by assumption.
+    assert ((z <? 0)%Z = false) as Hn by (apply Z.ltb_ge; assumption). rewrite Hn.
+    apply with_disp_bare. assumption.
+  - (* segment-override reference *)
+    repeat rewrite andb_true_iff in Ho. destruct Ho as (Hsg & Hb & Hi & Hsc & Hd & Hsc1 & Hne).
     assert (Hsc1' : i = None -> sc = 1%Z).
     { intro E. subst i. apply Z.eqb_eq. assumption. }
     pose proof Hlo as Hlo'. unfold valid_oplay in Hlo'. repeat rewrite andb_true_iff in Hlo'.
-    destruct Hlo' as (Hwd & _).
-    assert (Hparen : (b = None -> i = None -> False) ->
-              forall d' bare w, forallb is_ws w = true ->
-              with_disp (Some d') bare (w ++ render_paren lo b i sc ++ r) = Some (RGood (OMem d' b i sc), r)).
-    { intros Hbi d' bare w Hw. apply with_disp_paren; assumption. }
-    assert (Hbrk_paren : forall w, blanks w = true -> brk_head (L w ++ render_paren lo b i sc ++ r)).
-    { intros w Hw. apply brk_head_L; [assumption|reflexivity]. }
-    unfold rop_of.
-    destruct d as [|z|n].
-    + (* no displacement *)
-      assert (Hbi : b = None -> i = None -> False).
-      { intros -> ->. discriminate. }
-      replace (render_op first lo (OMem DNone b i sc)) with (render_paren lo b i sc) by (destruct b, i; reflexivity).
-      change (parse_operand (render_paren lo b i sc ++ r))
-        with (with_disp (Some DNone) None ([] ++ render_paren lo b i sc ++ r)).
-      apply Hparen; [assumption|reflexivity].
-    + (* integer displacement *)
-      destruct (render_Z_head lo z) as (c & t & Ez & Hc).
-      destruct b as [rb|], i as [ri|];
-        try (unfold render_op; rewrite Ez; norm; rewrite parse_operand_num by tauto;
-             rewrite app_comm_cons, <- Ez; rewrite parse_number_render by (apply Hbrk_paren; assumption);
-             apply Hparen; [intros; discriminate|assumption]).
-      (* absolute address *)
-      apply Z.leb_le in Habs. destruct Hc as [[_ Hneg]|[Hc _]]; [lia|].
-      unfold render_op. rewrite Ez. norm. rewrite parse_operand_num by tauto.
-      rewrite app_comm_cons, <- Ez. rewrite parse_number_render by assumption.
-      unfold with_disp. rewrite after_op_not_lp by assumption.
-      rewrite digit_not_minus by assumption. rewrite Hsc1' by reflexivity. reflexivity.
-    + (* label displacement *)
-      assert (Hbi : b = None -> i = None -> False).
-      { intros -> ->. discriminate. }
-      destruct (ident_head n Hd) as (c & t & En & Hc).
-      replace (render_op first lo (OMem (DId n) b i sc)) with (L n ++ L (w_d lo) ++ render_paren lo b i sc)
-        by (destruct b, i; reflexivity).
-      rewrite En. norm. rewrite parse_operand_id by assumption. rewrite app_comm_cons, <- En.
-      rewrite parse_ident_render by (assumption || (apply Hbrk_paren; assumption)).
-      apply Hparen; assumption.
+    destruct Hlo' as (Hwd & _ & _ & _ & _ & _ & _ & Hsg1 & Hsg2 & _).
+    unfold rop_of. simpl code_view. unfold render_op. norm.
+    (* the part after ":" and its blanks *)
+    set (pp := match b, i with
+               | None, None => []
+               | _, _ => (match d with SNone => [] | _ => L (w_d lo) end) ++ render_paren lo b i sc
+               end).
+    assert (Hpp : match b, i with
+                  | None, None => pp = []
+                  | _, _ => pp = (match d with SNone => [] | _ => L (w_d lo) end) ++ render_paren lo b i sc
+                  end) by (destruct b, i; reflexivity).
+    assert (Hfollow : follow (pp ++ r)).
+    { destruct b as [rb|], i as [ri|]; rewrite Hpp; try (apply after_op_follow; assumption);
+        destruct d; norm; try (apply paren_follow; assumption); apply (paren_follow ""%string); reflexivity. }
+    assert (Htail : d <> SNone \/ (b = None -> i = None -> False) ->
+              seg_tail sg d (pp ++ r) = Some (RGood (OSeg sg d b i sc), r)).
+    { intro Hor. subst pp.
+      destruct b as [rb|], i as [ri|].
+      1-3: (destruct d; norm;
+            [apply seg_tail_paren with (w := @nil ascii)|apply seg_tail_paren with (w := L (w_d lo))
+            |apply seg_tail_paren with (w := L (w_d lo))]; try assumption; try reflexivity; intros; discriminate).
+      rewrite (Hsc1' eq_refl). change ([] ++ r) with r. apply seg_tail_bare; [|assumption].
+      destruct Hor as [H|H]; [assumption|exfalso; apply H; reflexivity]. }
+    destruct d as [|t|n rel off].
+    + (* no displacement: the parenthesised part is there *)
+      assert (Hbi : b = None -> i = None -> False) by (intros -> ->; discriminate).
+      simpl render_sdisp. simpl app.
+      rewrite parse_operand_seg; [|assumption|assumption|assumption|destruct b, i; try (exfalso; apply Hbi; reflexivity); reflexivity].
+      assert (Ehd : exists x, pp ++ r = "(" :: x) by (destruct b, i; try (exfalso; apply Hbi; reflexivity); rewrite Hpp; eexists; reflexivity).
+      destruct Ehd as (x & Ex). unfold parse_seg. rewrite Ex. simpl Ascii.eqb. cbv iota. rewrite <- Ex.
+      apply Htail; right; assumption.
+    + (* number as written *)
+      simpl render_sdisp. simpl in Hd.
+      destruct (numtxt_head t Hd) as (c & l & Et & Hc).
+      rewrite parse_operand_seg; [|assumption|assumption|assumption|rewrite Et; simpl; destruct Hc as [->|Hc]; [reflexivity|auto using digit_not_ws']].
+      unfold parse_seg. rewrite Et. norm.
+      assert (Ascii.eqb c "(" = false) as Hlp by (destruct Hc as [->|Hc]; [reflexivity|auto using digit_not_lp]).
+      assert (orb (Ascii.eqb c "-") (is_digit c) = true) as Hnum by (destruct Hc as [->|Hc]; [reflexivity|rewrite Hc; apply orb_true_r]).
+      rewrite Hlp, Hnum. rewrite app_comm_cons, <- Et.
+      rewrite scan_number_render by (assumption || apply Hfollow). rewrite S_L.
+      apply Htail; left; discriminate.
+    + (* identifier [@relocation [offset]] *)
+      pose proof Hd as Hd'. simpl in Hd'. apply andb_true_iff in Hd'. destruct Hd' as [Hn _].
+      destruct (sident_head lo n rel off Hn) as (c & x & Ex & Hc).
+      rewrite parse_operand_seg; [|assumption|assumption|assumption|rewrite Ex; simpl; auto using idfirst_not_ws].
+      unfold parse_seg. rewrite Ex. norm.
+      rewrite idfirst_not_lp, idfirst_not_minus, idfirst_not_digit, Hc by assumption. simpl orb. cbv iota.
+      rewrite app_comm_cons, <- Ex.
+      rewrite parse_sident_render by assumption.
+      apply Htail; left; discriminate.
+  - (* indirect: "*" register | number | identifier *)
+    unfold rop_of. simpl code_view.
+    destruct x as [n|d]; unfold render_op, render_star; norm; unfold parse_operand; simpl Ascii.eqb; cbv iota.
+    + rewrite skipL by (assumption || reflexivity). unfold parse_star. simpl Ascii.eqb. cbv iota.
+      rewrite parse_reg_render by assumption. rewrite after_op_not_colon by assumption. reflexivity.
+    + apply andb_true_iff in Ho. destruct Ho as [Hd Hne].
+      destruct d as [|t|n rel off]; [discriminate| |].
+      * simpl render_sdisp. simpl in Hd. destruct (numtxt_head t Hd) as (c & l & Et & Hc).
+        rewrite skipL; [|assumption|rewrite Et; simpl; destruct Hc as [->|Hc]; [reflexivity|auto using digit_not_ws']].
+        pose proof (scan_number_render t r Hd Hbrk) as Hscan.
+        destruct (parse_number_numtxt t r Hd Hbrk) as (nr & r' & Hnum).
+        rewrite Et in *. norm in Hscan. norm in Hnum. norm. unfold parse_star. rewrite Hscan, Hnum.
+        assert (Hdisp : Ascii.eqb c "%" = false /\ Ascii.eqb c "(" = false /\ orb (Ascii.eqb c "-") (is_digit c) = true).
+        { destruct Hc as [->|Hc]; [repeat split; reflexivity|].
+          rewrite digit_not_pct, digit_not_lp, Hc, orb_true_r by assumption. auto. }
+        destruct Hdisp as (-> & -> & ->). rewrite <- Et. rewrite S_L. apply with_disp_bare. assumption.
+      * pose proof Hd as Hd'. simpl in Hd'. apply andb_true_iff in Hd'. destruct Hd' as [Hn _].
+        destruct (sident_head lo n rel off Hn) as (c & x & Ex & Hc).
+        rewrite skipL; [|assumption|rewrite Ex; simpl; auto using idfirst_not_ws].
+        pose proof (parse_sident_render lo n rel off r Hlo Hd (after_op_follow r Hr)) as Hsid.
+        rewrite Ex in *. norm in Hsid. norm. unfold parse_star. rewrite Hsid.
+        rewrite idfirst_not_pct, idfirst_not_lp, idfirst_not_minus, idfirst_not_digit, Hc by assumption.
+        simpl orb. cbv iota. apply with_disp_bare. assumption.
+  - (* register with opmask: the mask is dropped *)
+    apply andb_true_iff in Ho. destruct Ho as [Hn Hk].
+    unfold rop_of. simpl code_view. simpl render_op. norm. unfold parse_operand. simpl Ascii.eqb. cbv iota.
+    assert (Hk1 : blanks (wk1 (lo_k lo)) = true).
+    { pose proof (klay_inv lo Hlo) as H. unfold valid_klay in H. repeat rewrite andb_true_iff in H. tauto. }
+    unfold render_mask at 1. cbv zeta. norm.
+    rewrite parse_reg_render_stops; [|assumption|apply stops_L_cons; auto using ws_not_alnum].
+    rewrite skipL by (assumption || reflexivity). simpl hd_eqb. cbv iota.
+    pose proof (skip_mask_render lo k zz true r Hlo Hk (fun _ => eq_refl) (fun _ _ => after_op_not_lbrace r Hr)) as Hm.
+    unfold render_mask in Hm. cbv zeta in Hm. norm in Hm. rewrite Hm. reflexivity.
+  - (* memory reference with opmask *)
+    apply andb_true_iff in Ho. destruct Ho as [Hm Hk].
+    unfold rop_of. simpl code_view. simpl render_op. norm.
+    apply parse_operand_render_mem; try assumption. right. exists k. auto.
+  - (* identifier@relocation[+-offset]: the name is kept *)
+    pose proof Ho as Ho'. simpl in Ho'. apply andb_true_iff in Ho'. destruct Ho' as [Hn _].
+    destruct (sident_head lo n (Some rel) off Hn) as (c & x & Ex & Hc).
+    unfold render_op, rop_of. destruct (orb (lo_dollar lo) (negb first)).
+    + norm. unfold parse_operand. simpl Ascii.eqb. cbv iota. rewrite !app_nil_l.
+      rewrite Ex. norm. rewrite parse_number_ident by assumption. rewrite app_comm_cons, <- Ex.
+      rewrite parse_sident_render by (assumption || (apply after_op_follow; assumption)). reflexivity.
+    + rewrite app_nil_l. rewrite Ex. norm. rewrite parse_operand_id by assumption. rewrite app_comm_cons, <- Ex.
+      rewrite parse_sident_render by (assumption || (apply after_op_follow; assumption)).
+      apply with_disp_bare. assumption.
+  - (* numeric label  digits b|f *)
+    apply andb_true_iff in Ho. destruct Ho as [Hd Hx].
+    unfold rop_of. simpl render_op. norm.
+    unfold valid_numlabel in Hd. destruct (L dg) as [|c t] eqn:Ed; [discriminate|].
+    assert (Hc : is_digit c = true) by (simpl in Hd; apply andb_true_iff in Hd; tauto).
+    rewrite <- Ed in Hd.
+    unfold parse_operand. norm.
+    rewrite digit_not_pct, digit_not_dollar, digit_not_lp, digit_not_star, Hc, orb_true_r by assumption.
+    rewrite app_comm_cons, <- Ed.
+    rewrite span_app; [|assumption|simpl; apply bf_not_digit; assumption].
+    rewrite Ed. simpl negb. rewrite Hx. simpl andb. cbv iota. rewrite <- Ed. rewrite S_L. reflexivity.
 Qed.
 
 Lemma render_op_head first lo o : valid_operand o = true ->
   exists c t, render_op first lo o = c :: t /\ is_ophead c = true.
 Proof.
-  intro Ho. destruct o as [n|z|n|d b i sc]; simpl in Ho.
+  intro Ho.
+  assert (Hmem : forall d b i sc, valid_paren_mem d b i sc = true ->
+            exists c t, render_mem lo d b i sc = c :: t /\ is_ophead c = true).
+  { intros d b i sc Hm. unfold render_mem. destruct (lo_star (lo_k lo)).
+    - eexists; eexists; split; reflexivity.
+    - rewrite app_nil_l. unfold valid_paren_mem in Hm. repeat rewrite andb_true_iff in Hm. destruct Hm as (_ & _ & _ & Hd & _).
+      destruct d as [|z|n|n rel off].
+      + eexists; eexists; split; reflexivity.
+      + destruct (render_Z_head lo z) as (c & t & Ez & Hc). rewrite Ez. norm. eexists; eexists; split; [reflexivity|].
+        destruct Hc as [[-> _]|[Hc _]]; [reflexivity|auto using digit_ophead].
+      + simpl in Hd. destruct (ident_head n Hd) as (c & t & En & Hc). rewrite En. norm.
+        eexists; eexists; split; [reflexivity|auto using idfirst_ophead].
+      + simpl in Hd. apply andb_true_iff in Hd. destruct Hd as [Hn _].
+        destruct (sident_head lo n (Some rel) off Hn) as (c & x & Ex & Hc). rewrite Ex. norm.
+        eexists; eexists; split; [reflexivity|auto using idfirst_ophead]. }
+  destruct o as [n|z|n|d b i sc|sg d b i sc|x|n k zz|d b i sc k|n rel off|dg x]; simpl in Ho.
   - eexists; eexists; split; reflexivity.
   - eexists; eexists; split; reflexivity.
   - unfold render_op. destruct (orb (lo_dollar lo) (negb first)).
     + eexists; eexists; split; reflexivity.
     + destruct (ident_head n Ho) as (c & t & En & Hc). exists c, t. split; [assumption|auto using idfirst_ophead].
-  - repeat rewrite andb_true_iff in Ho. destruct Ho as (Hb & Hi & Hsc & Hd & Hsc1 & Habs).
-    destruct d as [|z|n].
-    + exists "(". eexists. split; [destruct b, i; reflexivity|reflexivity].
-    + destruct (render_Z_head lo z) as (c & t & Ez & Hc).
-      assert (is_ophead c = true) as Hh.
-      { destruct Hc as [[-> _]|[Hc _]]; [reflexivity|auto using digit_ophead]. }
-      destruct b, i; unfold render_op; rewrite Ez; norm; eexists; eexists; split; try reflexivity; assumption.
-    + destruct (ident_head n Hd) as (c & t & En & Hc).
-      destruct b, i; unfold render_op; try discriminate; rewrite En; norm;
-        eexists; eexists; (split; [reflexivity|auto using idfirst_ophead]).
+  - destruct d as [|z|n|n rel off]; try (destruct b, i; apply Hmem; exact Ho).
+    destruct b, i; try (apply Hmem; exact Ho).
+    simpl render_op. destruct (render_Z_head lo z) as (c & t & Ez & Hc). exists c, t. split; [assumption|].
+    destruct Hc as [[-> _]|[Hc _]]; [reflexivity|auto using digit_ophead].
+  - eexists; eexists; split; reflexivity.
+  - destruct x; eexists; eexists; split; reflexivity.
+  - eexists; eexists; split; reflexivity.
+  - apply andb_true_iff in Ho. destruct Ho as [Hm _]. destruct (Hmem d b i sc Hm) as (c & t & E & Hc).
+    simpl render_op. rewrite E. norm. eexists; eexists; split; [reflexivity|assumption].
+  - unfold render_op. destruct (orb (lo_dollar lo) (negb first)).
+    + eexists; eexists; split; reflexivity.
+    + simpl in Ho. apply andb_true_iff in Ho. destruct Ho as [Hn _].
+      destruct (sident_head lo n (Some rel) off Hn) as (c & x & Ex & Hc). rewrite app_nil_l. rewrite Ex.
+      eexists; eexists; split; [reflexivity|auto using idfirst_ophead].
+  - apply andb_true_iff in Ho. destruct Ho as [Hd _]. unfold valid_numlabel in Hd.
+    simpl render_op. destruct (L dg) as [|c t]; [discriminate|]. simpl in Hd. apply andb_true_iff in Hd.
+    norm. eexists; eexists; split; [reflexivity|]. apply digit_ophead. tauto.
 Qed.
